@@ -195,7 +195,7 @@ def r3_seeding(ctx, rule):
 
 
 def r4_limit(ctx, rule):
-    return c09.r2_pairing(ctx, rule, quals=[HS + 'run', HG], floor=5)
+    return c09.r2_pairing(ctx, rule, quals=[HS + 'run', HG], floor=5, extend=False)
 
 
 def _renorm(ctx, rule):
